@@ -160,6 +160,10 @@ impl Submissions {
             if let Ok(()) = submitted {
                 return Ok(());
             }
+            // Spinning until the kernel made room: only continue after
+            // another thread made progress.
+            #[cfg(a10_verif)]
+            crate::verif::yield_point("wake.retry.wait");
         }
     }
 
